@@ -112,6 +112,7 @@ type Exec struct {
 	pcSet     map[int]bool
 	pcDirty   bool
 	inOnLock  bool
+	inSyncMapHook bool
 	pools     map[string][]Value // sync.Pool contents
 	lastModel map[string]uint64 // a model of the current path condition, if known
 	evalMemo  map[int]uint64
